@@ -102,17 +102,38 @@ def index_fns(text):
             pref.append(pref[-1] + len(ch.encode("utf-8")))
         cb = lambda c: pref[c]
     res = []
+    ITEM_START = {"fn", "pub", "#", "impl", "}", "const", "proof", "spec", "open", "closed", "broadcast", "struct", "enum",
+                  "use", "mod", "type", "exec", "unsafe", "async", "extern", "trait", "static", "uninterp", "macro_rules", "tracked", "ghost"}
+    n = len(toks)
     for k, t in enumerate(toks):
-        if t.kind == "ident" and t.text == "fn" and k + 1 < len(toks) and toks[k + 1].kind == "ident":
+        if t.kind == "ident" and t.text == "fn" and k + 1 < n and toks[k + 1].kind == "ident":
             name = toks[k + 1].text
             j = k + 2
-            while j < len(toks) and toks[j].text not in ("{", ";"):
-                if toks[j].text in ("(", "["):
-                    j = match_close(toks, j)
+            # skip generics and parameter list
+            while j < n and toks[j].text != "(":
                 j += 1
-            if j < len(toks) and toks[j].text == "{":
-                e = match_close(toks, j)
-                res.append((cb(t.start), cb(toks[e].end), name))
+            if j >= n:
+                continue
+            j = match_close(toks, j) + 1
+            body = None
+            while j < n:
+                tj = toks[j]
+                if tj.text == ";" :
+                    break
+                if tj.text in ("(", "["):
+                    j = match_close(toks, j) + 1
+                    continue
+                if tj.text == "{":
+                    c = match_close(toks, j)
+                    nxt = toks[c + 1].text if c + 1 < n else "}"
+                    if nxt in ITEM_START:
+                        body = (j, c)
+                        break
+                    j = c + 1
+                    continue
+                j += 1
+            if body:
+                res.append((cb(t.start), cb(toks[body[1]].end), name))
     return res
 
 
